@@ -9,6 +9,12 @@
 (*           its denotation term                                           *)
 (*   hidden  the state a call could write and a later call could read:     *)
 (*           there is none -- no action changes it (purity)                *)
+(*   held    per function object: the parameter set with which the user    *)
+(*           has filled -- in place -- the params template that            *)
+(*           get_lcm_function returned together with it (0: not filled).   *)
+(*           The user may pass this object (via = "held") instead of a     *)
+(*           fresh one; only the user's own FillTemplate changes it, no    *)
+(*           call on any function object does.                             *)
 (*                                                                         *)
 (* The denotation term of a call depends on its arguments only:            *)
 (*   solve(p) on a function of model m                    <<"V", m, p>>    *)
@@ -24,52 +30,63 @@ EXTENDS Integers, Sequences, FiniteSets, TLC
 
 CONSTANTS Models, ParamSets, Inits, Seeds, MaxFuncs, Depth
 
-VARIABLES funcs, hist, hidden
-avars == <<funcs, hist, hidden>>
+VARIABLES funcs, hist, hidden, held
+avars == <<funcs, hist, hidden, held>>
 Targets == {"solve", "simulate", "solve_and_simulate"}
 
-AInit == funcs = <<>> /\ hist = <<>> /\ hidden = "none"
+AInit == funcs = <<>> /\ hist = <<>> /\ hidden = "none" /\ held = <<>>
+Vias == {"fresh", "held"}
+ViaOK(f, p, via) == via = "held" => held[f] = p
 
 Create(m, tg, jit) ==
   /\ Len(funcs) < MaxFuncs
   /\ funcs' = Append(funcs, [model |-> m, target |-> tg, jit |-> jit])
   /\ hist' = Append(hist, [op |-> "create", f |-> Len(funcs) + 1, model |-> m, target |-> tg, jit |-> jit,
-                           p |-> 0, init |-> 0, seed |-> 0, vfrom |-> 0, term |-> <<"none">>])
+                           p |-> 0, init |-> 0, seed |-> 0, vfrom |-> 0, via |-> "fresh", term |-> <<"none">>])
+  /\ held' = Append(held, 0)
   /\ UNCHANGED hidden
+\* the user writes parameter set p into the template object that came with function object f
+FillTemplate(f, p) ==
+  /\ held[f] # p
+  /\ held' = [held EXCEPT ![f] = p]
+  /\ hist' = Append(hist, [op |-> "fill", f |-> f, model |-> funcs[f].model, target |-> funcs[f].target, jit |-> funcs[f].jit,
+                           p |-> p, init |-> 0, seed |-> 0, vfrom |-> 0, via |-> "held", term |-> <<"none">>])
+  /\ UNCHANGED <<funcs, hidden>>
 
 VTerm(m, p) == <<"V", m, p>>
-CallSolve(f, p) ==
-  /\ funcs[f].target = "solve"
+CallSolve(f, p, via) ==
+  /\ funcs[f].target = "solve" /\ ViaOK(f, p, via)
   /\ hist' = Append(hist, [op |-> "solve", f |-> f, model |-> funcs[f].model, target |-> "solve", jit |-> funcs[f].jit,
-                           p |-> p, init |-> 0, seed |-> 0, vfrom |-> 0, term |-> VTerm(funcs[f].model, p)])
-  /\ UNCHANGED <<funcs, hidden>>
+                           p |-> p, init |-> 0, seed |-> 0, vfrom |-> 0, via |-> via, term |-> VTerm(funcs[f].model, p)])
+  /\ UNCHANGED <<funcs, hidden, held>>
 \* simulate with the value arrays returned by the earlier solve call k of the same model
-CallSimulate(f, p, i, s, k) ==
-  /\ funcs[f].target = "simulate"
+CallSimulate(f, p, i, s, k, via) ==
+  /\ funcs[f].target = "simulate" /\ ViaOK(f, p, via)
   /\ k \in DOMAIN hist /\ hist[k].op = "solve" /\ hist[k].model = funcs[f].model
   /\ hist' = Append(hist, [op |-> "simulate", f |-> f, model |-> funcs[f].model, target |-> "simulate", jit |-> funcs[f].jit,
-                           p |-> p, init |-> i, seed |-> s, vfrom |-> k,
+                           p |-> p, init |-> i, seed |-> s, vfrom |-> k, via |-> via,
                            term |-> <<"F", funcs[f].model, p, hist[k].term, i, s>>])
-  /\ UNCHANGED <<funcs, hidden>>
-CallSolveAndSimulate(f, p, i, s) ==
-  /\ funcs[f].target = "solve_and_simulate"
+  /\ UNCHANGED <<funcs, hidden, held>>
+CallSolveAndSimulate(f, p, i, s, via) ==
+  /\ funcs[f].target = "solve_and_simulate" /\ ViaOK(f, p, via)
   /\ hist' = Append(hist, [op |-> "solve_and_simulate", f |-> f, model |-> funcs[f].model, target |-> "solve_and_simulate",
-                           jit |-> funcs[f].jit, p |-> p, init |-> i, seed |-> s, vfrom |-> 0,
+                           jit |-> funcs[f].jit, p |-> p, init |-> i, seed |-> s, vfrom |-> 0, via |-> via,
                            term |-> <<"F", funcs[f].model, p, VTerm(funcs[f].model, p), i, s>>])
-  /\ UNCHANGED <<funcs, hidden>>
+  /\ UNCHANGED <<funcs, hidden, held>>
 
 ANext ==
   \/ \E m \in Models, tg \in Targets, j \in BOOLEAN : Create(m, tg, j)
-  \/ \E f \in DOMAIN funcs, p \in ParamSets : CallSolve(f, p)
-  \/ \E f \in DOMAIN funcs, p \in ParamSets, i \in Inits, s \in Seeds, k \in DOMAIN hist : CallSimulate(f, p, i, s, k)
-  \/ \E f \in DOMAIN funcs, p \in ParamSets, i \in Inits, s \in Seeds : CallSolveAndSimulate(f, p, i, s)
+  \/ \E f \in DOMAIN funcs, p \in ParamSets : FillTemplate(f, p)
+  \/ \E f \in DOMAIN funcs, p \in ParamSets, v \in Vias : CallSolve(f, p, v)
+  \/ \E f \in DOMAIN funcs, p \in ParamSets, i \in Inits, s \in Seeds, k \in DOMAIN hist, v \in Vias : CallSimulate(f, p, i, s, k, v)
+  \/ \E f \in DOMAIN funcs, p \in ParamSets, i \in Inits, s \in Seeds, v \in Vias : CallSolveAndSimulate(f, p, i, s, v)
 ASpec == AInit /\ [][ANext]_avars
 
 \* purity at the level of the specification
 NoHiddenState == hidden = "none"
 TermDependsOnArgumentsOnly ==
   \A a, b \in DOMAIN hist :
-    (hist[a].op = hist[b].op /\ hist[a].op # "create" /\ hist[a].model = hist[b].model /\ hist[a].p = hist[b].p
+    (hist[a].op = hist[b].op /\ hist[a].op \notin {"create", "fill"} /\ hist[a].model = hist[b].model /\ hist[a].p = hist[b].p
      /\ hist[a].init = hist[b].init /\ hist[a].seed = hist[b].seed
      /\ (hist[a].op = "simulate" => hist[hist[a].vfrom].term = hist[hist[b].vfrom].term))
     => hist[a].term = hist[b].term
@@ -79,5 +96,8 @@ CombinedIsSolveThenSimulate ==
     (hist[a].op = "solve_and_simulate" /\ hist[b].op = "simulate" /\ hist[a].model = hist[b].model /\ hist[a].p = hist[b].p
      /\ hist[a].init = hist[b].init /\ hist[a].seed = hist[b].seed /\ hist[hist[b].vfrom].p = hist[b].p)
     => hist[a].term = hist[b].term
+\* an object the user holds is changed by the user only: no call on any function object writes to it
+HeldChangedByUserOnly == [][held' # held => hist'[Len(hist')].op \in {"create", "fill"}]_avars
+\* passing the held object or a fresh one with the same content denotes the same result (the term does not mention `via')
 Bound == Len(hist) <= Depth
 =============================================================================
